@@ -1,11 +1,12 @@
 """C10 — instantiating parameters equals evaluating them."""
 from common import f64
 from gen import poly as G
+import copy
 from gen import inst as GI
 
 PROP = "C10"
-RUNNER = ("RunTransform", "run_C10")
-COQ_TARGETS = ["theories/RunTransform.vo"]
+RUNNER = ("RunC10", "run_C10x")
+COQ_TARGETS = ["theories/RunTransform.vo", "theories/RunC10.vo"]
 AUTHORITY = ("C10_* (coq/props/C10.v): objective and active constraints of the result denote the parametric functions at (x, p); "
              "everything else unchanged; missing parameter <=> error; round trip keeps the problem")
 RULE = ("parametric instances made from random valid instances by turning a random subset of the variables that occur in the "
@@ -40,6 +41,25 @@ def gen(rng, tier):
         theta = [[p, f64(G.dyadic(rng, 4, 1))] for p in params]
         rng.shuffle(theta)
         cases.append({"op": "with_parameters", "input": [pinst, theta], "stream": "complete"})
+        # the instantiated instance must evaluate at a state over the decision variables alone
+        dep_keys = {d[0] for d in pinst[6]}
+        x = [e for e in GI.rand_state_for(rng, info, extra=0.0) if e[0] not in params and e[0] not in dep_keys]
+        cases.append({"op": "with_parameters_eval", "input": [pinst, theta, x], "stream": "complete+evaluate"})
+        if params and k % 2 == 0:
+            # a parameter that occurs with an explicit ZERO coefficient in a Linear objective / constraint /
+            # linear part of a Quadratic: it is still a parameter of that function and must be gone afterwards
+            q = copy.deepcopy(pinst)
+            z = f64(rng.choice([0.0, -0.0]))      # (a non-zero negligible coefficient would not be exact in binary64)
+            dv_ids = [e[0] for e in x if e[0] < 777000]
+            lin0 = ["lin", [[[params[0], z]] + ([[dv_ids[0], f64(2.0)]] if dv_ids else []) + [[params[-1], f64(1.5)]], f64(1.0)]]
+            where = rng.choice(["objective", "constraint", "quad-linear"])
+            if where == "objective" or not q[4]:
+                q[1] = [lin0]
+            elif where == "constraint":
+                q[4][0][2] = [lin0]
+            else:
+                q[4][0][2] = [["quad", [[], [], [], [lin0[1]]]]]
+            cases.append({"op": "with_parameters_eval", "input": [q, theta, x], "stream": "zero-coefficient-parameter"})
         cases.append({"op": "with_parameters", "input": [pinst, theta + [[900001, f64(1.5)]]], "stream": "extras"})
         for p in params:
             cases.append({"op": "with_parameters", "input": [pinst, [e for e in theta if e[0] != p]], "stream": "missing"})
